@@ -189,6 +189,30 @@ def run(prog, R):
             ps, _ = paths(prog, fn)
             ok = any(c[0].endswith(what) and c[1][1] == ("c", "bool", 0) and "value_u128" in show(c[1][0]) for p in ps for c in p.calls)
             R.ob("C10.4-signs", "negative integer literal: IntLiteral::new(value_u128, false)", ok, b.at, "")
+    R.premises(prog, "C10.1-lexer-suffix-premise", ["C15:C15.3-numeric-arms-agree", "C15:C15.3-string-suffix"],
+               "a number directly followed by a unit reaches the accessor as number + identifier only if both numeric arms of the lexer leave a unit suffix alone")
+    # imaginary literals: wherever the translator has established that the unit is `im` (plain or negated literal,
+    # int or float), the value is built with to_imaginary_texpr; sibling agreement of the four arms
+    ex_ = prog.body(S2S + "expr_to_asg_texpr")
+    if ex_:
+        TU = dict(prog.enum_variants("oq3_syntax::ast::expr_ext::TimeUnit") or prog.enum_variants("oq3_syntax::ast::TimeUnit") or [])
+        psx, _ = paths(prog, ex_.npath)
+        nim, badim = 0, []
+        for p in psx:
+            if "__diverged__" in p.env:
+                continue
+            r = deep_strip(p.env.get(0))
+            if not (r[0] == "adt" and r[1].endswith("Option::Some")):
+                continue
+            imag = any("time_unit" in show(t) and c == ("eq", TU.get("Imaginary")) for t, c in conds_of(p))
+            built_im = "to_imaginary_texpr" in show(r)
+            if imag:
+                nim += 1
+                if not built_im:
+                    badim.append(show(r)[:80])
+            elif built_im:
+                badim.append("to_imaginary_texpr without an `im` unit test: " + show(r)[:60])
+        R.ob("C10.4-imaginary-constructor", "every `im` literal path (int/float, plain/negated) builds the value with to_imaginary_texpr", nim >= 4 and not badim and "Imaginary" in TU, ex_.at, f"{nim} imaginary-literal paths; deviating {badim[:2]}")
     lk = prog.body("oq3_syntax::ast::expr_ext::Literal::kind")
     if lk:
         ps, _ = paths(prog, lk.npath)
